@@ -1527,6 +1527,9 @@ def check_ws_selection(fd, s):
         raise TranslationError(f"Wigner.{fd.name}: workspace selection {ast.unparse(s)}")
 
 
+METHOD_SIGS = {}    # name -> [(param, lean type)] of the definitions of Gen/MethodKern.lean, for generators that chain them
+
+
 def generate_methods(fns, gen_dir, write_if_changed):
     wtree = ast.parse(open(os.path.join(REPO, "spherical/wigner.py"), encoding="utf-8").read())
     layout = workspace_layout(wtree, fns)
@@ -1557,6 +1560,7 @@ def generate_methods(fns, gen_dir, write_if_changed):
         txt, params = MethodTr(fns, layout, lname, stmts, doc).translate()
         out.append(txt)
         sig[lname] = params
+        METHOD_SIGS[lname] = list(params)
         if lname not in ("Wigner_rotate_rotor", "Wigner_d_body"):
             # the loop itself: `for i_R in range(quaternions.shape[0])`; row i_R of the input, row / column i_R of the output (its own array id)
             per = {"quaternions_row": "Int → Int → α", "function_values_row": "Int → Nat", "function_values_col": "Int → Nat"}
@@ -2457,7 +2461,8 @@ def generate_rotmkern(fns, gen_dir, write_if_changed):
     fdk.body = [loop]
     ast.fix_missing_locations(fdk)
     k, txt = KTr(fns, {}, set(), fdk, complex_arrays={flm, fln, D}, dims2={flm, fln}).translate(lean_name="u_rotate")
-    out = [FILL_HEADER.format(src="spherical/wigner.py (_rotate)").replace("The kernels that turn the H wedge into results",
+    out = [FILL_HEADER.format(src="spherical/wigner.py (_rotate; the matrix branches of Wigner.rotate and Wigner.evaluate)").replace(
+           "import SphericalVerif.Model.FlatMem\n", "import SphericalVerif.Model.FlatMem\nimport SphericalVerif.Gen.MethodKern\n").replace("The kernels that turn the H wedge into results",
            "The matrix route of `Wigner.rotate`: per ℓ the row of weights times the (2ℓ+1)×(2ℓ+1) block of the flat 𝔇 array (`row @ block`: for each column the sum over the row index, accumulated from 0 in index order — BLAS fixes no order, so at `Float` this is one admissible rounding; over exact reals the order is immaterial)"),
            "/-- `_rotate`:\n\n" + "\n".join("      " + l for l in nfkc(ast.unparse(body[0])).splitlines()) + " -/\n" + txt, "end\nend Gen\n"]
     sig = {k.name: [(p, k.kinds[p]) for p in k.params]}
@@ -2490,5 +2495,56 @@ def generate_rotmkern(fns, gen_dir, write_if_changed):
                "    bounds as the text computes them and `np.matmul(mode_weights[:, i1:i1+n], Y[j1:j1+n], out=function_values[..., i_R])` — per row of weights\n"
                "    the sum over the slice, accumulated from 0 in index order (one admissible order) -/\n" + txt2)
     sig[k2.name] = [(p, k2.kinds[p]) for p in k2.params]
+    # ---- the two matrix branches at method level: which generated bodies they chain, with which arguments ------------------------------
+    fdr = find_function(wtree, "rotate", "Wigner")
+    rifs = [x for x in fdr.body if isinstance(x, ast.If) and nfkc(ast.unparse(x.test)).startswith("horner or ")]
+    if len(rifs) != 1:
+        raise TranslationError("Wigner.rotate: strategy selection not found")
+    rb = [nfkc(ast.unparse(x)) for x in rifs[0].orelse]
+    if rb != ["D = self.D(R, workspace=workspace)",
+              "_rotate(mode_weights, rotated_mode_weights, self.ell_min, self.ell_max, self.mp_max, ell_min, ell_max, spin_weight, D)"]:
+        raise TranslationError(f"Wigner.rotate: matrix branch {rb}")
+    drot = KERNELS.get("Wigner_D_rotor")
+    yrot = KERNELS.get("Wigner_sYlm_rotor")
+    # (generate_methods registers its definitions by name in METHOD_SIGS)
+    dsig = METHOD_SIGS.get("Wigner_D_rotor")
+    ysig = METHOD_SIGS.get("Wigner_sYlm_rotor")
+    if dsig is None or ysig is None:
+        raise TranslationError("method bodies of Wigner.D / Wigner.sYlm not generated")
+
+    def call_body(sig_, rename):
+        ps, args = [], []
+        for (n, t) in sig_:
+            m = rename.get(n, n)
+            args.append(m)
+            ps.append((m, t))
+        return ps, " ".join(args)
+    dps, dargs = call_body(dsig, {"quaternions_row": "R", "function_values_row": "D"})
+    rot_params = dps + [("mode_weights", "Int → Cx α"), ("rotated_mode_weights", "Nat"), ("ell_min", "Int"), ("ell_max", "Int"), ("spin_weight", "Int"),
+                        ("rotated_mode_weights_shape0", "Int"), ("mode_weights_shape1", "Int"), ("rotated_mode_weights_shape1", "Int")]
+    kr = KERNELS["u_rotate"]
+    want_r = ["flm", "fln", "ell_min_w", "ell_max_w", "mp_max_w", "ell_min_m", "ell_max_m", "spin_weight_m", "D", "fln_shape0", "flm_shape1", "fln_shape1"]
+    if kr.params != want_r:
+        raise TranslationError(f"u_rotate: parameters {kr.params}")
+    out.insert(-1, "/-- the matrix branch of `Wigner.rotate` (the default strategy):\n\n      D = self.D(R, workspace=workspace)\n"
+               "      _rotate(mode_weights, rotated_mode_weights, self.ell_min, self.ell_max, self.mp_max, ell_min, ell_max, spin_weight, D)\n\n"
+               "    `self.D` is the generated body of `Wigner.D` for the one rotor (`D` a fresh array), `_rotate` reads that array as it is after the call -/\n"
+               "def Wigner_rotate_matrix_body " + " ".join(f"({n} : {t})" for n, t in rot_params) + " (st : φ) : φ :=\n"
+               f"  let st : φ := Wigner_D_rotor (α := α) {dargs} st\n"
+               "  let st : φ := u_rotate (α := α) mode_weights rotated_mode_weights self_ell_min self_ell_max self_mp_max ell_min ell_max spin_weight "
+               "(fun i => frdC (α := α) st D i) rotated_mode_weights_shape0 mode_weights_shape1 rotated_mode_weights_shape1 st\n  st\n")
+    yps, yargs = call_body(ysig, {"quaternions_row": "quaternions_row", "function_values_row": "Y", "s": "spin_weight"})
+    ev_params = yps + [("mode_weights", "Int → Cx α"), ("function_values_col", "Nat"), ("ell_min", "Int"), ("ell_max", "Int"),
+                       ("mode_weights_shape0", "Int"), ("mode_weights_shape1", "Int")]
+    if k2.params != ["mode_weights", "Y", "function_values_col", "self_ell_min", "ell_min", "ell_max", "mode_weights_shape0", "mode_weights_shape1"]:
+        raise TranslationError(f"Wigner_evaluate_matrix_contract: parameters {k2.params}")
+    out.insert(-1, "/-- the loop body of the matrix branch of `Wigner.evaluate` (the default strategy):\n\n"
+               "      self.sYlm(spin_weight, quaternions[i_R], out=Y, workspace=workspace)\n"
+               "      np.matmul(mode_weights[:, i1:i1 + n], Y[j1:j1 + n], out=function_values[..., i_R])\n\n"
+               "    `self.sYlm(…, out=Y)` is the generated body of `Wigner.sYlm` writing the array `Y`; the contraction reads `Y` as it is after the call -/\n"
+               "def Wigner_evaluate_matrix_rotor " + " ".join(f"({n} : {t})" for n, t in ev_params) + " (st : φ) : φ :=\n"
+               f"  let st : φ := Wigner_sYlm_rotor (α := α) {yargs} st\n"
+               "  let st : φ := Wigner_evaluate_matrix_contract (α := α) mode_weights (fun i => frdC (α := α) st Y i) function_values_col self_ell_min ell_min ell_max "
+               "mode_weights_shape0 mode_weights_shape1 st\n  st\n")
     write_if_changed(os.path.join(gen_dir, "RotMKern.lean"), "\n".join(out))
     return sig
